@@ -20,7 +20,7 @@ RULE = (
     "(db float conversion into the model's default unit, or unchanged; amounts 2.5, 3, 0 and 0.0, length / time / temperature incl. degC and degF into K) and the exact sequence of on_current / "
     "on_unit_changed notifications (re-selecting the current system may or may not notify; after removing the current "
     "system any registered system or none may be selected); a rejected call leaves the model-visible state and the "
-    "notification log untouched. Mappings may name a unit of another quantity type (they are taken as given): converting into such a unit, or from a unit that is not a unit of the category, raises. One manager used while the shipped and a project database are current in turn (either order) converts with the database that is current at each call. Non-trivial = history with a removal or a default-unit change after a change of the "
+    "notification log untouched. Mappings may name a unit of another quantity type (they are taken as given): converting into such a unit, or from a unit that is not a unit of the category, raises. One manager used while the shipped and a project database are current in turn (either order) converts with the database that is current at each call. Categories of a mapped quantity type that the system does not map (depth, diameter) come back unchanged. Non-trivial = history with a removal or a default-unit change after a change of the "
     "current system; key = the history."
 )
 ASSUMPTIONS = [
@@ -220,7 +220,9 @@ def run_history(ctx, seq, fail, db):
         # conversions into the current default units
         cm = M.sys.get(M.cur, {}) if M.cur is not None else {}
         # (amounts include zero and a unit with an offset: 0 degC is 273.15 K, not "nothing to convert")
-        for cat, unit, x in (("length", "ft", 2.5), ("time", "min", 3.0), ("temperature", "degC", 0.0), ("temperature", "degF", -40.0), ("length", "ft", 0.0), ("time", "min", 0)):
+        for cat, unit, x in (("length", "ft", 2.5), ("time", "min", 3.0), ("temperature", "degC", 0.0), ("temperature", "degF", -40.0), ("length", "ft", 0.0), ("time", "min", 0), ("depth", "m", 1500.0), ("diameter", "in", 2.0)):
+            # ('depth' and 'diameter' are categories of quantity type length that no system maps: unchanged, whatever the
+            # system says about 'length')
             ctx.ev()
             if cat in cm and cm[cat] not in db.GetUnits(db.GetCategoryQuantityType(cat)):
                 # the current system names a unit of another quantity type for this category: nothing can be
